@@ -1380,6 +1380,16 @@ func runC09(o *out, thorough bool, r *rng, _ []string) map[string]interface{} {
 		}
 		o.count("ip-lengths")
 	}
+	// IPs of the wrong length that BEGIN like a right one: the IPv4-mapped prefix, zeros, a whole IPv4 / IPv6
+	// address followed by more bytes
+	for l := 1; l <= 40; l++ {
+		mappedPrefix := append([]byte{0, 0, 0, 0, 0, 0, 0, 0, 0, 0, 0xff, 0xff}, r.bytes(40)...)
+		for _, ip := range [][]byte{mappedPrefix[:l], make([]byte, l), append(r.bytes(4), make([]byte, 40)...)[:l], append(r.bytes(16), r.bytes(40)...)[:l]} {
+			emit(withBytes([]int{5, xorTypes[l%len(xorTypes)], g.port()}, ip))
+			emit(withBytes([]int{6, mappedTypes[l%len(mappedTypes)], g.port()}, ip))
+		}
+		o.count("ip-lengths-with-a-valid-beginning")
+	}
 	// integrity after fingerprint (and before), Build stopping at the first failing setter
 	n := 600
 	if thorough {
